@@ -200,3 +200,25 @@ CHECKS.update({
 NOT_YET = {}
 
 HOOK_COMMITS = ["71990aa", "ef4a40c", "f28e495"]
+
+
+# ---- additions of rounds 5-7 (applied to the evaluated texts)
+def _rep(k, a, b):
+    assert a in CHECKS[k]["text"], (k, a)
+    CHECKS[k]["text"] = CHECKS[k]["text"].replace(a, b, 1)
+
+
+_rep("C04", "UlaTrace requires the clock after each call", "Operand addresses of the nn encodings and the registers are drawn on window boundaries (words across memory of different contention status), every other machine has an I/O extender claiming a port pattern; UlaTrace requires the clock after each call")
+_rep("C05", "checked for executed T-states = frames x frame length + offset", "with Max-mode calls and breakpoint stops mixed in and, in three fifths of the runs, a good or damaged tape playing in real time (the host carries on after tape errors), checked for executed T-states = frames x frame length + offset")
+_rep("C06", "followed by a probe of each window)", "followed by a probe of each window; files offered by the host in between: rejected ones change nothing, well-formed snapshots of the own model restart memory, latch and lock from the file, on the 48K without creating a latch)")
+_rep("C07", "and the extender log, per configuration;", "and the extender log, per configuration (extender claims overlapping ULA, latch and AY; device set from the settings or from an SZX mouse chunk saying Kempston, AMX or none);")
+_rep("C09", "(several per line, retrace, frame end, none, after snapshot loads)", "(several per line, retrace, frame end, none, through any even port, after SNA/SZX loads at frame boundaries and in mid-frame, with and without an I/O extender on port 0x00FE)")
+_rep("C10", "48K/128K, requests past the end)", "48K/128K, requests past the end, host rewinds and fast-load switching between requests, machines reused across tapes, debugger stops inside the ROM routine)")
+_rep("C11", "played with random 0..16 T steps", "played with random 0..16 T steps (some wound back in the first pass, some with redundant PLAY presses)")
+_rep("C14", "and into an emulator of the other model.", "and into an emulator of the other model; 48K receivers come with or without an AY and with an AY switch history (run-time switch, earlier SZX without AY).")
+_rep("C17", "InputTrace compares each read.", "A tenth of the steps start with a host operation that is no input event (snapshot load, sound/AY switch), which must not change what any source holds. InputTrace compares each read.")
+_rep("C18", "Through the Spectrum ports: select wraps mod 16 and reads return the last written value.", "Through the Spectrum ports (machines with and without a moving Kempston mouse/joystick, every address pattern that selects the AY): select wraps mod 16 and reads return the last written value; a repeated R13 write restarts the envelope.")
+_rep("C19", "AY on/off, both machines and three drain policies;", "AY on/off, both machines, three drain policies, hosts that start muted and unmute, machines without the beeper device, SZX loads restoring speaker/MIC;")
+_rep("C20", "VtxTrace checks every call's", "and rewind()/set_frame() between calls; VtxTrace checks every call's")
+_rep("C16", "under 18 drivings", "under 20 drivings")
+_rep("C16", "sound off, audio never drained,", "sound off, AY off, both switched at run time, audio never drained,")
